@@ -415,6 +415,9 @@ pub fn run(ctx: &mut Ctx, args: &Args) {
                     ctx.count("inputs_beyond_kahn", 1);
                 }
                 digest_lines.insert(inp.name.clone(), format!("{:016x}:{}", digest, b.len()));
+                ctx.sample_by_kind(inp.kind, json!({"input": inp.name, "output_len": b.len(), "objects": objects,
+                                                    "stage_trace": run.trace, "output_digest": format!("{:016x}", digest),
+                                                    "schedules": "reference, repeat, histories k in {0,1,7,1000}, counter jumps, 16-thread rounds, cross-process"}));
                 input_table.push(json!({"name": inp.name, "kind": inp.kind, "output_len": b.len(), "objects": objects,
                                         "declared_hashed": inp.declared_hashed, "trace": run.trace, "nontrivial": nontrivial,
                                         "reference_ms": (t_ref.elapsed().as_secs_f64() * 1000.0).round()}));
